@@ -153,8 +153,13 @@ def run_config(chk, config):
                     n_zlb += 1
                 else:
                     e0 = "%s[0]" % vv.name
-                    first_ok = eng.ent(st, c_eq(Lin.sym(e0 + "#v"), Lin.const(0))) and \
-                        eng.ent(st, c_eq(Lin.sym(e0 + ".Ok.0#v"), Lin.const(mt_idx)))
+                    # 'no element is Err' (the all-ok test on this path) applies to element 0 too
+                    extra = [c_eq(Lin.sym(e0 + "#v"), Lin.const(0))] if fact_any is False else []
+                    if extra and not layout.conj_feasible(eng, st, extra):
+                        n_ok -= 1
+                        continue          # first element Err and no element Err: infeasible path
+                    first_ok = layout.conj_entails(eng, st, extra, c_eq(Lin.sym(e0 + "#v"), Lin.const(0))) and \
+                        layout.conj_entails(eng, st, extra, c_eq(Lin.sym(e0 + ".Ok.0#v"), Lin.const(mt_idx)))
                     if not first_ok:
                         probs.append("a non-empty message is accepted without its first AVP being pinned to Ok(MessageType)")
                 if not (isinstance(avps, VVec) and eng.ent(st, c_eq(avps.len, vv.len))):
